@@ -1,0 +1,11 @@
+// Add-only export shim (build tag verif): the selector coders built at
+// package initialisation, for the generated-table obligations of the
+// verification harness (harness/cmd/gentables).
+
+//go:build verif
+// +build verif
+
+package bzip2
+
+// VerifSel returns the VerifDump of encSel and of decSel.
+func VerifSel() (enc, dec []uint32) { return encSel.VerifDump(), decSel.VerifDump() }
